@@ -23,6 +23,7 @@ type SolveResult struct {
 	VCBytes int
 	File    string
 	Answers map[string]string // per solver (thorough)
+	Retried bool              // undecided at first, decided (or not) by the solitary second attempt
 }
 
 type solverSpec struct {
